@@ -339,11 +339,16 @@ def c18_3(ctx: Ctx) -> RuleResult:
     # normalize(): divides by the sum and freezes; rejects non-positive sums
     norm = ctx.repo.func("ropt.config.utils.normalize")
     rt = X.return_term(norm)
-    ok = any(
-        s[0] == "binop" and s[1] == "/" and s[2][0] == "param" and s[3][0] == "call" and s[3][1] == ("attr", s[2], "sum")
-        for s in subterms(rt)
-    ) and Frozen(ctx).producer(norm)
-    res.add(norm, norm.node, "normalize returns immutable_array(array / array.sum())", ok, "" if ok else f"normalize returns `{show(rt)}`",
+
+    def normalised(a):
+        return any(
+            s[0] == "binop" and s[1] == "/" and s[2][0] == "param" and s[3][0] == "call" and s[3][1] == ("attr", s[2], "sum")
+            for s in subterms(a)
+        )
+
+    ok = all(normalised(a) for a in alts(rt)) and Frozen(ctx).producer(norm)
+    res.add(norm, norm.node, "normalize returns immutable_array(array / array.sum()) on every path", ok,
+            "" if ok else f"normalize can return `{show([a for a in alts(rt) if not normalised(a)][0] if [a for a in alts(rt) if not normalised(a)] else rt, 90)}`: weights that are not divided by their sum (they do not sum to one)",
             construct="normalize definition")
     raises = [n for n in nodes_in(norm, ast.Raise)]
     res.add(norm, norm.node, "normalize rejects weight vectors whose sum is not positive", bool(raises), construct="normalize rejects non-positive sum")
